@@ -50,6 +50,8 @@ class Agreement(Observer):
         self.sent_view = {}
         self.local_state = {}
         self.failed_pub = {}
+        self.self_down = {}
+        self.self_down_reported = set()
 
     def _probe(self, name):
         self.probes[name] = self.probes.get(name, 0) + 1
@@ -151,6 +153,25 @@ class Agreement(Observer):
             self._probe('not_quiescent')
             return
         live = [i for i in sim.instances.values() if i.alive and i.supvisors is not None]
+        # "every instance": an instance that never completes the hand-shake with its own Supervisor (it does not see
+        # itself RUNNING) reports nothing at all, whatever the others run. Judged when it lasts, without any fault around
+        for o in live:
+            own = o.supvisors.context.instances.get(o.identifier)
+            key = (o.nick, o.incarnation)
+            if own is None or own.state.name == 'RUNNING' or o.sd is None or o.sd.stopping:
+                self.self_down.pop(key, None)
+                continue
+            since = self.self_down.setdefault(key, sim.now_us)
+            if sim.now_us - since > 90 * 10**6 and key not in self.self_down_reported:
+                self.self_down_reported.add(key)
+                if any(fired and t >= since - 60 * 10**6 and item['kind'] not in ('boot', 'rpc', 'probe')
+                       for t, item, fired in self.run.applied):
+                    self._probe('own_hand_shake_pending_after_fault_skipped')
+                    continue
+                self.violate('never-admitted', {'observer': o.nick, 'own_state': own.state.name,
+                                                'since': since / 1e6,
+                                                'local_programs': len(truth(o))},
+                             'own-hand-shake-never-completes')
         # no hand-shake in progress and every instance seen RUNNING is alive (so that "actually report" is defined)
         views = {}
         for o in live:
